@@ -42,6 +42,8 @@ def enum_cases(desc):
     if desc["mode"] == "header":
         for v, ns in (("1", 1), ("2", 1), ("2.4", 4), ("NPultra", 1), ("2.4", 1)):
             yield {"mode": "header", "version": v, "nshank": ns}
+        for gen in ("3A", "3B2", "NP2.1", "NP2.4", "NPultra"):
+            yield {"mode": "nomap", "gen": gen}
         return
     for r in range(*desc["rows"]):
         yield {"mode": "grid", "version": desc["version"], "row": r}
@@ -122,7 +124,42 @@ def run_case(case, ctx):
                 sel = eth["shank"] == s
                 _cmp_geom(ctx, "C08.split_trace_header", hs, {k: v_[sel] for k, v_ in eth.items()})
         return
+    if mode == "nomap":
+        _run_nomap(case, ctx)
+        return
     _run_meta(case, ctx)
+
+
+def _run_nomap(case, ctx):
+    """Metadata without any site table: the documented fall-back is the dense default layout of the probe generation."""
+    sg = sut.spikeglx()
+    gen = case["gen"]
+    spec = {"gen": gen, "stream": "ap", "n": 384, "n_acq": 384, "pattern": "dense", "site_seed": 0, "enc": "shank", "tilde": True,
+            "range": 0.6, "maxint": 512 if gen in ("3A", "3B2", "NPultra") else 8192, "gain_mode": "uniform", "gains_seed": 0,
+            "imro_fields": 5 if gen == "3A" else 6, "fs": 30000.0, "nsync": 1, "ns": 10}
+    if gen != "3A":
+        spec["prb_type"] = gm.PRB_TYPES[gen][0]
+    if gen == "NP2.4":
+        spec["shanks"] = [0]
+    text = "\n".join(ln for ln in gm.build_text(spec).splitlines() if "snsShankMap" not in ln and "snsGeomMap" not in ln) + "\n"
+    ctx.label("nomap_" + gen)
+    ctx.nontrivial = True
+    with rec.scratch_dir(ctx) as d:
+        p = d / "a.ap.meta"
+        p.write_text(text)
+        md = ctx.call("C08.read_meta", sg.read_meta_data, p)
+        if md is ctx.CRASH:
+            return
+        eth, _ = calib.geometry(spec, sort=False)
+        for sort in (False, True):
+            r = ctx.call("C08.geometry_from_meta", sg.geometry_from_meta, md, return_index=True, sort=sort)
+            if r is ctx.CRASH:
+                return
+            if not ctx.check(isinstance(r, tuple) and len(r) == 2 and isinstance(r[0], dict), "C08.default_geometry",
+                             "geometry_from_meta(return_index=True) did not return (header, index) for metadata without a site table"):
+                return
+            _cmp_geom(ctx, "C08.default_geometry", r[0], eth, keys=("x", "y", "row", "col", "shank", "adc", "sample_shift"))
+            ctx.check(np.array_equal(r[1], np.arange(384)), "C08.default_geometry.index", "index of the default geometry is not the identity")
 
 
 def _check_adc_groups(ctx, gen, th):
